@@ -90,6 +90,7 @@ impl C06 {
             ("unary", nf * 4),
             ("pairs", nf * nf),
             ("injections", inj.len() as u64),
+            ("injections_huge_block", 3 * 27 * 2 * 40),
             ("universal", surj.len() as u64 * nfu * 3),
             ("semifinite", nf * 6),
             ("coequalizer_structured", 0), // filled in below
@@ -97,7 +98,7 @@ impl C06 {
         ];
         let mut families = families;
         let ng = structured_graphs().len() as u64 + (LARGE.len() * 6) as u64;
-        families[7].1 = ng;
+        families.iter_mut().find(|f| f.0 == "coequalizer_structured").unwrap().1 = ng;
         if !quick {
             families.push(("coequalizer_into_six", np6));
         }
@@ -240,6 +241,46 @@ impl C06 {
                     }
                 }
                 Ok(nt)
+            }
+            "injections_huge_block" => {
+                // three blocks, one of them huge and NOT selected (the total is usize::MAX or one less), the other two of
+                // size 0..2 selected in every order and multiplicity by index maps of length <= 3: every output entry is
+                // representable, so the call must succeed
+                let hpos = (i / (27 * 2 * 40)) as usize;
+                let small = (i / (2 * 40)) % 27;
+                let slack = ((i / 40) % 2) as usize;
+                let mi = (i % 40) as usize;
+                let sm = [(small % 3) as usize, ((small / 3) % 3) as usize];
+                let rest: usize = sm.iter().sum();
+                let mut sizes = vec![sm[0], sm[1]];
+                sizes.insert(hpos, usize::MAX - rest - slack);
+                // index maps over the two small blocks: all lists of length <= 3 over 2 values (15), renamed to skip hpos
+                let lists = ohmc_core::uni::lists(2, 3);
+                if mi >= lists.len() {
+                    return Ok(false);
+                }
+                let others: Vec<usize> = (0..3).filter(|&b| b != hpos).collect();
+                let am: Vec<usize> = lists[mi].iter().map(|&k| others[k]).collect();
+                let s = ff(&sizes, usize::MAX);
+                let a = ff(&am, 3);
+                let r = catch(|| s.injections(&a)).map_err(|p| format!("injections(sizes {:?}, map {:?}) panicked although every entry of the result is representable: {}", sizes, am, p))?;
+                let mut p = vec![0u128];
+                for k in sizes.iter() {
+                    p.push(p.last().unwrap() + *k as u128);
+                }
+                let mut e: Vec<usize> = vec![];
+                for &x in am.iter() {
+                    for j in 0..sizes[x] {
+                        e.push((p[x] + j as u128) as usize);
+                    }
+                }
+                match r {
+                    None => Err(format!("injections(sizes {:?}, map {:?}) is None", sizes, am)),
+                    Some(r) => {
+                        ensure(r.table.0 == e && r.target as u128 == p[3], || format!("injections(sizes {:?}, map {:?}) = {}, expected {:?} -> {}", sizes, am, show(&r), e, p[3]))?;
+                        Ok(!am.is_empty())
+                    }
+                }
             }
             "injections" => {
                 let (sizes, am, dn) = &self.inj[i as usize];
